@@ -239,6 +239,10 @@ impl Pixmap {
     ///
     /// Returns `None` when position is out of bounds.
     pub fn pixel(&self, x: u32, y: u32) -> Option<PremultipliedColorU8> {
+        if x >= self.width() || y >= self.height() {
+            return None;
+        }
+
         let idx = self.width().checked_mul(y)?.checked_add(x)?;
         self.pixels().get(idx as usize).cloned()
     }
@@ -303,7 +307,12 @@ impl<'a> PixmapRef<'a> {
             return None;
         }
 
-        Some(PixmapRef { data, size })
+        // Use only the bytes that belong to the image: the surplus may not even be
+        // a whole number of pixels.
+        Some(PixmapRef {
+            data: &data[..data_len],
+            size,
+        })
     }
 
     /// Creates a new `Pixmap` from the current data.
@@ -349,6 +358,10 @@ impl<'a> PixmapRef<'a> {
     ///
     /// Returns `None` when position is out of bounds.
     pub fn pixel(&self, x: u32, y: u32) -> Option<PremultipliedColorU8> {
+        if x >= self.width() || y >= self.height() {
+            return None;
+        }
+
         let idx = self.width().checked_mul(y)?.checked_add(x)?;
         self.pixels().get(idx as usize).cloned()
     }
@@ -462,7 +475,12 @@ impl<'a> PixmapMut<'a> {
             return None;
         }
 
-        Some(PixmapMut { data, size })
+        // Use only the bytes that belong to the image: the surplus may not even be
+        // a whole number of pixels.
+        Some(PixmapMut {
+            data: &mut data[..data_len],
+            size,
+        })
     }
 
     /// Creates a new `Pixmap` from the current data.
